@@ -8,4 +8,5 @@ using dis_t = dis_interval_domain<z_number, varname_t>;
 using term_dis_t = term_domain<term::TDomInfo<z_number, varname_t, dis_t>>;
 using sdbm_t = split_dbm_domain<z_number, varname_t, G_int64>;
 using D = reduced_numerical_domain_product2<term_dis_t, sdbm_t>;
-SIM_REGISTER_DOMAIN(num_term_dis_zones, D, "num_term_dis_zones", CAP_INT64 | CAP_NTOW | CAP_SLOW)
+SIM_REGISTER_DOMAIN(num_term_dis_zones, D, "num_term_dis_zones",
+                    CAP_INT64 | CAP_NTOW | CAP_SLOW | CAP_BACKWARD)
